@@ -188,7 +188,21 @@ def scan(repo):
     info = {"functions": {}, "allocators": {}}
     nonraising = nonraising_allocators(repo)
     info["allocators"] = nonraising
+    errors = []
     for rel, fname, start_re in FUNCS:
+        try:
+            _scan_one(repo, rel, fname, start_re, texts, variant, info, nonraising)
+        except F.TranslatorError as e:
+            errors.append(str(e))
+    if errors:
+        err = F.TranslatorError("; ".join(errors))
+        err.variant = variant
+        raise err
+    return variant, info
+
+
+def _scan_one(repo, rel, fname, start_re, texts, variant, info, nonraising):
+    if True:
         if rel not in texts:
             try:
                 texts[rel] = strip_comments(open(os.path.join(repo, rel)).read())
@@ -204,6 +218,15 @@ def scan(repo):
             # the recursive call and the returns; drop the macro-generated bufwrite part (no tokens there)
             pass
         exp = EXPECTED[fname]
+        # lenient pre-pass: the variant flags are read off by position among the allocator calls, so that a function
+        # that no longer has the modelled shape (reported below) still gets the right variant for the trace search
+        allocs = [t for t in toks if re.fullmatch(ALLOC_RE, t) and t not in ("mju_user_malloc", "mju_alignedMalloc")]
+        for key, pos, n in (("v_mbuf", 1, 2), ("v_dbuf", 1, 3), ("v_darena", 2, 3)):
+            if fname == {"v_mbuf": "mj_makeModel", "v_dbuf": "mj_makeRawData", "v_darena": "mj_makeRawData"}[key] and len(allocs) == n:
+                variant[key] = allocs[pos] != "mju_malloc" and bool(nonraising.get(allocs[pos], False))
+        if fname == "mj_loadModelBuffer" and ("mju_warning:" + STRUCTS_MSG) in toks:
+            k = toks.index("mju_warning:" + STRUCTS_MSG)
+            variant["v_lstructs"] = k + 1 < len(toks) and toks[k + 1] == "mj_deleteModel"
         if fname == "mju_malloc":
             # any allocator calls, then exactly one mju_error("Could not allocate memory"), then the return
             if (len(toks) < 3 or toks[-2:] != ["mju_error:Could not allocate memory", "return"]
@@ -211,7 +234,7 @@ def scan(repo):
                 raise F.TranslatorError("cannot read %s:%d: mju_malloc no longer has the shape allocate / "
                                         "mju_error(\"Could not allocate memory\") / return: %s" % (rel, line, toks))
             info["functions"][fname] = {"file": rel, "line": line, "tokens": len(toks)}
-            continue
+            return
         got = []
         i = 0
         for e in exp:
@@ -246,7 +269,6 @@ def scan(repo):
             raise F.TranslatorError("cannot read %s:%d: %s: token list has %d entries (%d consumed), model was written against %d: %s"
                                     % (rel, line, fname, len(toks), i, len(exp), toks))
         info["functions"][fname] = {"file": rel, "line": line, "tokens": len(toks)}
-    return variant, info
 
 
 # ---------------------------------------------------------------- call-site inventory
